@@ -7,7 +7,7 @@ From FlacWriters Require Import Params_proofs.
 From FlacReaders Require Readers Spec Ser RNum Seek.
 From FlacWriters Require Import Lists_proofs Writers_proofs.
 From FlacWriters Require Import Bytes_proofs.
-From FlacE2E Require Import Bridge E2E SampleE2E Success ChannelE2E ByteE2E ByteSuccess ChannelSuccess ReadBridge ReadersE2E InterruptedE2E.
+From FlacE2E Require Import Bridge E2E SampleE2E Success ChannelE2E ByteE2E ByteSuccess ChannelSuccess ReadBridge ReadersE2E InterruptedE2E SeekE2E.
 Import ListNotations.
 Open Scope N_scope.
 
@@ -70,7 +70,8 @@ Theorem C01_end_to_end_samples : forall o L md5, (forall l, length (md5 l) = 16%
     FlacCodec.Enc_proofs.short_only_last (conv_si (f_si f)) blocks /\
     FlacCodec.Ast.si_total (conv_si (f_si f)) = FlacCodec.Enc_proofs.blocks_samples blocks /\
     FlacCodec.Ast.si_channels (conv_si (f_si f)) = ch /\ FlacCodec.Enc_proofs.blocks_samples blocks < 2 ^ 36 /\
-    FlacCodec.Spec.spec_stream (f_stream f) = Ok (conv_si (f_si f), blocks).
+    FlacCodec.Spec.spec_stream (f_stream f) = Ok (conv_si (f_si f), blocks) /\
+    reach o L p rate bps (sw_enc w) blocks (f_enc f).
 Proof. intros. eapply e2e_sample_pcm; eauto. Qed.
 
 (* C01 for FlacSampleWriter, complete: hypotheses on the input only.  For well-formed options, a writer the
@@ -350,6 +351,50 @@ Theorem C14_sample_writer_interrupted : forall o L p rate bps wo ch total w chun
       end.
 Proof. exact sample_writer_interrupted. Qed.
 
+(* C09 across the areas.  Every defined point of the SEEKTABLE finalize writes names a frame boundary of the finished
+   stream: at its byte offset (counted from the first frame) the codec area's frame decoder finds the frame of a block,
+   that block starts at the sample number the point announces, has the length it announces, and its frame number is its
+   position.  (C09_points proves the table truthful against the writers area's own bookkeeping; here that bookkeeping is
+   tied to the bytes the block encoder model produced and to what the decoder makes of them.) *)
+Theorem C09_end_to_end_seekpoints : forall o L md5, (forall l, length (md5 l) = 16%nat) ->
+  forall p rate bps wo ch total e0 bl e f iv pts,
+  encoder_new p [] wo rate bps ch total = Ok e0 ->
+  reach o L p rate bps e0 bl e ->
+  FlacWriters.Encoder_proofs.enc_inv e -> FlacWriters.Finish_proofs.enc_static e -> FlacWriters.Finish_proofs.frames_nonempty e ->
+  e_interval e = Some iv ->
+  encoder_finalize md5 p e = Ok f -> first_seektable (f_blocks f) = Some pts ->
+  Forall (FlacCodec.Enc_proofs.block_ok (conv_si (f_si f)) bps) bl ->
+  N.of_nat (length bl) <= FlacCodec.Header.MAX_FRAME_NUMBER + 1 ->
+  FlacCodec.Enc_proofs.blocks_samples bl < 2 ^ 64 ->
+  exists audio, FlacCodec.Stream.read_metadata_min (f_stream f) = Some (conv_si (f_si f), audio) /\
+  forall s b m, In (Defined s b m) pts ->
+    exists pre blk post h rest, bl = pre ++ blk :: post /\ s = FlacCodec.Enc_proofs.blocks_samples pre /\ m = FlacCodec.Enc.block_len blk /\
+      FlacCodec.Dec.dec_frame (Some (conv_si (f_si f))) (fun _ => Ok tt) (skipn (N.to_nat b) audio) = Ok (h, blk, rest) /\
+      FlacCodec.Ast.h_number h = N.of_nat (length pre).
+Proof. exact e2e_seekpoints. Qed.
+
+(* ... and for a whole FlacSampleWriter model run with a seek-table policy, hypotheses on the input only *)
+Theorem C09_sample_writer_seekpoints : forall o L md5, (forall l, length (md5 l) = 16%nat) ->
+  forall p rate bps wo ch total w chunks iv,
+  options_wf wo -> o_seektable_interval wo = Some iv ->
+  sample_new p [] wo rate bps ch total = Ok w ->
+  forallb (FlacCodec.Wf.fits bps) (concat chunks) = true ->
+  let W := N.of_nat (length (concat chunks)) / ch in
+  1 <= W -> N.of_nat (length (concat chunks)) < 2 ^ 36 ->
+  match total with Some T => T = ch * W | None => True end ->
+  exists f blocks audio,
+    sample_run (encB o L rate bps) md5 p w chunks = Ok f /\
+    FlacCodec.Stream.read_metadata_min (f_stream f) = Some (conv_si (f_si f), audio) /\
+    concat (map FlacCodec.Stream.interleave_frame blocks) = firstn (N.to_nat ch * (length (concat chunks) / N.to_nat ch)) (concat chunks) /\
+    forall pts, first_seektable (f_blocks f) = Some pts ->
+      forall s b m, In (Defined s b m) pts ->
+        exists pre blk post h rest, blocks = pre ++ blk :: post /\ s = FlacCodec.Enc_proofs.blocks_samples pre /\ m = FlacCodec.Enc.block_len blk /\
+          FlacCodec.Dec.dec_frame (Some (conv_si (f_si f))) (fun _ => Ok tt) (skipn (N.to_nat b) audio) = Ok (h, blk, rest) /\
+          FlacCodec.Ast.h_number h = N.of_nat (length pre).
+Proof. exact sample_writer_seekpoints. Qed.
+
+Print Assumptions C09_end_to_end_seekpoints.
+Print Assumptions C09_sample_writer_seekpoints.
 Print Assumptions C14_end_to_end_interrupted.
 Print Assumptions C14_sample_writer_interrupted.
 Print Assumptions C02_byte_writer_file_valid.
